@@ -641,17 +641,22 @@ fn synth_binary(
             }
             Ok(out)
         }
-        Op::LogicAnd => {
-            let xs = synthesize_expr(ctx, x, current, 1)?;
-            let ys = synthesize_expr(ctx, y, current, 1)?;
-            let a = ctx.add_cell(CellKind::And2, vec![xs[0], ys[0]]);
-            Ok(resize(vec![a], result_width, false))
-        }
-        Op::LogicOr => {
-            let xs = synthesize_expr(ctx, x, current, 1)?;
-            let ys = synthesize_expr(ctx, y, current, 1)?;
-            let o = ctx.add_cell(CellKind::Or2, vec![xs[0], ys[0]]);
-            Ok(resize(vec![o], result_width, false))
+        Op::LogicAnd | Op::LogicOr => {
+            // Operands are self-determined and true iff any bit is set, so
+            // reduce each at its own width (a multi-bit operand is not its LSB).
+            let wx = x.comptime().r#type.total_width().unwrap_or(1).max(1);
+            let wy = y.comptime().r#type.total_width().unwrap_or(1).max(1);
+            let xs = synthesize_expr(ctx, x, current, wx)?;
+            let ys = synthesize_expr(ctx, y, current, wy)?;
+            let xb = reduce_or(ctx, &xs);
+            let yb = reduce_or(ctx, &ys);
+            let kind = if matches!(op, Op::LogicAnd) {
+                CellKind::And2
+            } else {
+                CellKind::Or2
+            };
+            let r = ctx.add_cell(kind, vec![xb, yb]);
+            Ok(resize(vec![r], result_width, false))
         }
         Op::Add => {
             let xs = synthesize_expr(ctx, x, current, result_width)?;
